@@ -240,6 +240,27 @@ func vSymState(b vBounds) *vEnv {
 	e.armed = vBool("timer.armed")
 	e.td = time.Duration(vI64("timer.d"))
 
+	// --- cache of future payloads (Inv 15): ncache payloads of the types given by ctype0/ctype1
+	for i := 0; i < b.ncache; i++ {
+		ct := vParam("ctype0")
+		if i == 1 {
+			ct = vParam("ctype1")
+		}
+		cp := vSymPayload("cache", vMsgTypes[ct], vU32("cache.height"))
+		if ct == apiPrepareRequest {
+			cp.txs = vSymTxs("cache", vParam("mntx"))
+		}
+		vAssume(int(cp.vidx) != b.my)
+		if vParam("csame") == 1 {
+			vAssume(cp.height == d.BlockIndex)
+		} else if vParam("csame") == 2 {
+			vAssume(cp.height > d.BlockIndex)
+		}
+		vAssume(cp.height > d.BlockIndex || (cp.height == d.BlockIndex && cp.view > d.ViewNumber && ct != apiChangeView))
+		d.cache.addMessage(cp)
+		e.cached = append(e.cached, cp)
+	}
+
 	e.pool = nil
 	np := vParam("npool")
 	for i := 0; i < np; i++ {
